@@ -1,13 +1,5 @@
 package type3
 
-// C07: the rate-limited issuer signs only authentic, untampered requests.
-
-func c07Rejected(issuer *RateLimitedIssuer, wire []byte) {
-	resp, key, err := issuer.Evaluate(wire)
-	vAssert(err != nil, "rejected-with-error")
-	vAssert(resp == nil, "no-response")
-	vAssert(key == nil, "no-blinded-request-key")
-}
 
 // honest request for a registered origin is served; every single-bit change of it is rejected
 func VerifC07_issuer_bitflips() {
